@@ -994,6 +994,27 @@ def run_async(facts, path, args, heap=None, oracle=None, inline=(), bind=None):
     return out, it.heap, it.events
 
 
+
+def run_coroutine(facts, path, captures, heap=None, oracle=None, inline=(), bind=None):
+    """evaluate an `async` block's coroutine body on its own: `captures` maps the captured variables' names to values
+    (others become tokens named after the variable). Returns (output, interpreter)."""
+    b = facts.bodies[path]
+    if b.rec.get("closure_kind") != "coroutine":
+        raise Unsupported("%s is not a coroutine body" % path)
+    caps = {}
+    for nm, pl in (b.upvars or {}).items():
+        fld = [pr for pr in pl["p"] if pr[0] == "field"]
+        if fld:
+            caps[fld[0][1]] = captures.get(nm, Tok(nm))
+    n = (max(caps) + 1) if caps else 0
+    env = ("closure", path, [caps.get(j, Tok("cap%d" % j)) for j in range(n)])
+    it = Interp(facts, oracle, inline=inline, bind=bind)
+    it.heap = dict(heap or {})
+    it._polling = True
+    out = it.call_body(path, [env, Tok("task-context")], 1)
+    return out, it
+
+
 def default_args(facts, path, heap, rename=None):
     """opaque arguments for body `path` named after its parameters; a closure environment becomes a
     closure value whose captures are tokens named after the captured variables.
